@@ -463,6 +463,28 @@ func (a *allocation) CreatePermissions(addrs ...net.Addr) error {
 	return nil
 }
 
+// RequestPermissions installs permissions for addrs on behalf of the
+// application (Client.CreatePermission) and enters them in the table of the
+// periodic refresh, as the permissions of WriteTo and Dial are: a peer that
+// was let in this way stays in for as long as the allocation lives.
+func (a *allocation) RequestPermissions(addrs ...net.Addr) error {
+	var err error
+	for range maxRetryAttempts {
+		if err = a.CreatePermissions(addrs...); !errors.Is(err, errTryAgain) {
+			break
+		}
+	}
+	if err != nil {
+		return err
+	}
+
+	for _, addr := range addrs {
+		a.permMap.findOrCreate(addr).setState(permStatePermitted)
+	}
+
+	return nil
+}
+
 // HandleInbound passes inbound data in UDPConn.
 func (c *UDPConn) HandleInbound(data []byte, from net.Addr) {
 	// Copy data
